@@ -505,7 +505,11 @@ def W_producers(ctx):
                     n = norm_cmp(a)
                     if n and n[0] == 'Ne' and (has_call(n[1], 'SchedulerContext::finality_idx') or has_call(n[2], 'SchedulerContext::finality_idx')) \
                             and (is_field(n[1], 'TxVersion.txid') or is_field(n[2], 'TxVersion.txid')):
-                        ok = True
+                        # the cursor LOAD itself (not just the branch on a cached flag) must follow the publication
+                        loads = [c for c in calls_in(a.d['term']) if callee_matches(c[1], 'SchedulerContext::finality_idx')]
+                        load_idx = [k for k, x in enumerate(p.events) if x.kind == 'call' and x.d.get('result') in loads]
+                        if load_idx and min(load_idx) > i_pub:
+                            ok = True
             if not ok:
                 bad3.append(p)
     ctx.ob('W2', f, 'publish-before-notify', n_unc >= 1 and not bad2, f'{len(bad2)} path(s) notify before status/timestamp publication', site=f.loc(f.b['lo']),
